@@ -42,7 +42,7 @@ CONSTANTS
   MaxInterval,   \* frac.DistributionMaxInterval       (ticks)
   BS,            \* consts.IDsPerBlock
   CTimes,        \* frac: creation times
-  MaxMid,        \* frac: document times 1..MaxMid, query ends 0..MaxMid+1
+  MaxMid,        \* frac: document times 1..MaxMid, query ends 0..MaxMid+1 and MaxUint64
   MaxRuns,       \* frac/real: distinct timestamps per fraction
   MaxCnt,        \* frac: documents per timestamp 1..MaxCnt
   CModel,        \* real: creation time of the fractions (model ms)
@@ -52,7 +52,8 @@ CONSTANTS
 VARIABLE cs
 vars == <<cs>>
 
-SysMID == 2147483647     \* frac.systemMID = MaxUint64 (LID 0 of every fraction)
+SysMID == 2147483647     \* MaxUint64: frac.systemMID (LID 0 of every fraction) and the open range end
+                         \* "no upper bound" as tests/setup/env.go writes it; the only model value above MaxInt64
 MaxRID == 2147483647     \* math.MaxUint64 as a RID
 QInf   == 2147483646     \* a query end beyond every time (the driver sends MaxInt64)
 
@@ -104,13 +105,18 @@ SetBits(b) == {p \in 0..(b.size - 1) : b.bin[p \div 8] > 0 /\ BmGet(b, p)}
 DistSize(from, to, bucket) == (to - from) \div bucket + 1 + 2
 NewDist(from, to, bucket) ==
   [from |-> from, to |-> to, bucket |-> bucket, bm |-> NewBitmask(DistSize(from, to, bucket))]
-\* MID.Time() = time.UnixMilli(int64(mid)); int64(MaxUint64) = -1, i.e. before every distribution
-TimeOf(mid) == IF mid = SysMID THEN 0 - 1 ELSE mid
+\* midToIndex: a value above MaxInt64 (MID.Time() would wrap it through int64 to a time before the
+\* epoch) lies after every representable timestamp: overflow bucket.  (Repaired in seq-db by "fix: a range
+\* end above MaxInt64 is not wrapped to the past by the occupancy map"; before, such an end was mapped
+\* to bucket 0 and fractions with an occupancy map were skipped.)  Consequence: the system ID that the
+\* sealer passes into BuildDistribution sets the overflow bit of every map.
+AboveMaxInt64(mid) == mid = SysMID
 MidToIndex(d, mid) ==
-  LET t == TimeOf(mid) IN
-  IF t < d.from THEN 0
-  ELSE IF t > d.to THEN d.bm.size - 1
-  ELSE (t - d.from) \div d.bucket + 1
+  IF AboveMaxInt64(mid) THEN d.bm.size - 1
+  ELSE LET t == mid IN                      \* MID.Time()
+       IF t < d.from THEN 0
+       ELSE IF t > d.to THEN d.bm.size - 1
+       ELSE (t - d.from) \div d.bucket + 1
 DistAddAll(d, mids) == [d EXCEPT !.bm = BmSetAll(@, {MidToIndex(d, m) : m \in mids})]
 DistIntersect(d, qf, qt) ==
   IF d.bucket = 0 THEN TRUE       \* isUndefined()
@@ -274,7 +280,8 @@ BitsOK ==
 BitsTable(bm) == [l \in 1..bm.size |-> [r \in 1..(bm.size - l + 1) |-> IF HasBitsIn(bm, l - 1, l + r - 2) THEN 1 ELSE 0]]
 
 \* ---- dist
-DistSeeds == {[k |-> "seed", from |-> f, to |-> t, bucket |-> b] : f \in 2..MaxT, t \in 2..MaxT, b \in Buckets}
+DistSeeds == {[k |-> "seed", from |-> f, to |-> t, bucket |-> b] :
+                f \in 2..MaxT, t \in 2..MaxT, b \in {x \in Buckets : WholeSeconds(x)}}
 DistCases(seed) == IF seed.from > seed.to THEN {}
                    ELSE {[k |-> "dist", from |-> seed.from, to |-> seed.to, bucket |-> seed.bucket, docs |-> D] :
                            D \in SUBSET (1..(MaxT + 1))}
@@ -293,6 +300,8 @@ DistOK ==
         \* the persisted form answers the same (or, with an undefined bucket, prunes nothing)
         /\ (IF rt.bucket = 0 THEN DistIntersect(rt, qf, qt) ELSE DistIntersect(rt, qf, qt) = DistIntersect(d, qf, qt))
 DistTable(d) == [a \in 1..(MaxT + 3) |-> [b \in 1..(MaxT + 3 - a + 1) |-> IF DistIntersect(d, a - 1, a + b - 2) THEN 1 ELSE 0]]
+\* reference: 1 where some document lies in [qf, qt] (there the code must not answer "no")
+MustTable(docs) == [a \in 1..(MaxT + 3) |-> [b \in 1..(MaxT + 3 - a + 1) |-> IF \E m \in docs : a - 1 <= m /\ m <= a + b - 2 THEN 1 ELSE 0]]
 
 \* ---- frac (scaled constants, exhaustive)
 \* all sequences of <= MaxRuns runs with distinct descending mids and counts 1..MaxCnt
@@ -306,14 +315,17 @@ FracSeeds == {[k |-> "seed", ct |-> c, form |-> fm, mid |-> m, cnt |-> n] :
 FracCases(seed) == {[k |-> "frac", ct |-> seed.ct, form |-> seed.form,
                      R |-> <<[mid |-> seed.mid, cnt |-> seed.cnt, a |-> "none", rb |-> 10 * seed.mid]>> \o s] :
                       s \in RunSeqs(seed.mid - 1, MaxRuns - 1)}
-FracQ == 0..(MaxMid + 1)
+FracQ == 0..(MaxMid + 1) \cup {SysMID}      \* SysMID: the range end MaxUint64 (q[1] <= q[2] keeps it an end)
+\* Searcher.SearchDocs merges the answers of the fractions that pass FilterInRange, and the reference is
+\* the union of the fractions' documents, so the theorem is stated (and is sufficient) per fraction.
 FracOK ==
   cs.k = "frac" =>
     LET F == FormFrac(cs.R, cs.ct, cs.form) IN
     \A qf \in FracQ, qt \in FracQ :
       qf <= qt => /\ PrunedLIDs(F, qf, qt) = FullScanDocs(F, qf, qt)
                   /\ FullScanLIDs(F, qf, qt) = FullScanDocs(F, qf, qt)
-\* a fraction is only ever asked Contains(mid) for... any mid: never FALSE for a stored timestamp
+\* Fraction.Contains(mid) = IsIntersecting(mid, mid), used by Fetcher.groupIDsByFraction to decide which
+\* fractions are asked for an ID: never FALSE for a stored timestamp
 ContainsOK ==
   cs.k = "frac" =>
     LET F == FormFrac(cs.R, cs.ct, cs.form) IN \A m \in RunMids(cs.R) : InfoIntersect(F.info, m, m)
@@ -496,7 +508,7 @@ EmitDist ==
   PrintT(<<"CASE", ToJson([k |-> "dist", from |-> cs.from, to |-> cs.to, bucket |-> cs.bucket, tps |-> TPS,
                            docs |-> SortedSeq(cs.docs), qmax |-> MaxT + 2, size |-> d.bm.size,
                            bits |-> SortedSeq(SetBits(d.bm)), bucketSec |-> Marshal(d).bucketSec,
-                           hit |-> DistTable(d), hitRT |-> DistTable(rt)])>>)
+                           hit |-> DistTable(d), hitRT |-> DistTable(rt), must |-> MustTable(cs.docs)])>>)
 FetchIDs(fs) == UNION {UNION {{<<fs[i].R[j].mid, fs[i].R[j].rb + 1>>, <<fs[i].R[j].mid, fs[i].R[j].rb + fs[i].R[j].cnt>>} :
                                j \in 1..Len(fs[i].R)} : i \in 1..Len(fs)}
 EmitReal ==
@@ -512,6 +524,7 @@ EmitReal ==
                [qf |-> q.qf, qt |-> q.qt, kind |-> q.kind, order |-> q.order, limit |-> q.limit,
                 hit |-> [i \in 1..Len(fs) |-> InfoIntersect(Fs[i].info, q.qf, q.qt)],
                 hitRT |-> [i \in 1..Len(fs) |-> InfoIntersect(Fr[i].info, q.qf, q.qt)],
+                must |-> [i \in 1..Len(fs) |-> FullScanLIDs(Fs[i], q.qf, q.qt) # {}],     \* reference: a document in range
                 total |-> RefTotal(fs, q), ids |-> RefTop(fs, q)]],
      fetch |-> SetToSeq(FetchIDs(fs))])>>)
 Emit ==
